@@ -94,7 +94,8 @@ func (s *rangeState) rowsFor(mac []byte) string {
 		if err := rows.Scan(&ip, &exp); err != nil {
 			return "rows ?"
 		}
-		out = append(out, fmt.Sprintf("%s:%d", hx(net.ParseIP(ip).To4()), exp))
+		// stored expiries are on the wall clock; reported on the harness's clock like everything else
+		out = append(out, fmt.Sprintf("%s:%d", hx(net.ParseIP(ip).To4()), exp+int64(aged/time.Second)))
 	}
 	sort.Strings(out)
 	// the hardware address as sqlite hands it back (column affinity may have rewritten it)
@@ -168,14 +169,20 @@ func (s *rangeState) exec(c *ctx, op string) string {
 		}
 		c.emit(op, res)
 		return res
+	case "rage": // rage <seconds>: every lease, in memory and in the database, becomes that much older
+		d := time.Duration(atoi(f[1])) * time.Second
+		rangeplugin.VerifAgeLeases(d) // instances of earlier histories whose files are gone may report errors: ignored
+		aged += d
+		c.emit(op, "ok")
+		return "ok"
 	case "rreq":
 		if s.h == nil {
 			return ""
 		}
 		mac, host := unhx(f[2]), unhx(f[3])
-		t0 := time.Now().UnixNano()
+		t0 := vnow()
 		res := askOne(s.h, f[1], mac, host)
-		t1 := time.Now().UnixNano()
+		t1 := vnow()
 		res += " " + s.rowsFor(mac)
 		c.emit(fmt.Sprintf("rreq %s %s %s", f[1], f[2], f[3]), fmt.Sprintf("%d %d %s", t0, t1, res))
 		return res
@@ -190,7 +197,7 @@ func (s *rangeState) exec(c *ctx, op string) string {
 			panic(err)
 		}
 		args := append([]string{cp}, s.args[1:]...)
-		t0 := time.Now().UnixNano()
+		t0 := vnow()
 		res := guard(func() string {
 			h, err := rangeplugin.Plugin.Setup4(args...)
 			if err != nil {
@@ -223,7 +230,7 @@ func (s *rangeState) exec(c *ctx, op string) string {
 				res = res2
 			}
 		}
-		t1 := time.Now().UnixNano()
+		t1 := vnow()
 		c.emit(op, fmt.Sprintf("%d %d %s", t0, t1, strings.TrimSpace(res)))
 		return res
 	}
@@ -315,6 +322,11 @@ func genRange(c *ctx) {
 					every = c.rng.Intn(4) != 0
 				}
 				continue
+			}
+			if c.rng.Intn(10) == 0 {
+				// time passes: less than, about, more than the lease time
+				ls := int(lease / 1e9)
+				s.exec(c, fmt.Sprintf("rage %d", []int{1, ls/2 + 1, ls + 1, 2*ls + 3}[c.rng.Intn(4)]))
 			}
 			m := macs[c.rng.Intn(len(macs))]
 			typ := "D"
